@@ -611,6 +611,11 @@ fn run_seq_case(case: &str) {
     let v = guarded(|| seq_virtual(limit, &ops));
     let r = seq_real(limit, &ops);
     let oracle = if v == r { "ok".to_string() } else { format!("FAIL:real-differs({})", first_difference(&v, &r)) };
+    if std::env::var("C19_IMPL").as_deref() == Ok("real") {
+        // validation of the pivot against the real kernel (`C19_IMPL=real c19 … | m_c19`): not used by check.py
+        emit(case, &r, "-");
+        return;
+    }
     emit(case, &v, &oracle);
 }
 
